@@ -159,6 +159,10 @@ func (x *Exec) staticCall(fr *Frame, ins ssa.Instruction, fn *ssa.Function, bind
 			// the callee may panic only in states satisfying the same predicate (its own panic-mode contract)
 			return x.useContract(fr, ins, pc, args, st)
 		}
+		if ct := x.eng.contractFor(fn); ct != nil && ct != x.target && contains(x.target.Uses, ct.Name) {
+			// a function verified never to panic under its precondition (obligation at this call)
+			return x.useContract(fr, ins, ct, args, st)
+		}
 	} else if ct := x.eng.contractFor(fn); ct != nil && !(x.specDepth > 0 && len(ct.Ensures) == 0 && x.target != ct) && !(x.target != nil && x.target != ct && contains(x.target.Inline, ct.Name)) {
 		// (a safety-only contract says nothing about results: specification code
 		// that calls such a function sees its body instead)
@@ -202,8 +206,15 @@ func (x *Exec) staticCall(fr *Frame, ins ssa.Instruction, fn *ssa.Function, bind
 			return packResults(res, nres)
 		}
 		// cannot inline: havoc everything the callee may touch
-		x.note("call to %s not inlined (depth/recursion): all modelled heap havoced, result arbitrary, panics inside not checked", shortFn(fn.String()))
-		x.havocAll(st)
+		x.note("call to %s not inlined (depth/recursion): every heap component it may write (transitive mod-set; dynamic calls inside assumed not to write modelled state) havoced, result arbitrary, panics inside not checked", shortFn(fn.String()))
+		if x.panicFn != nil && x.useMode == 0 && x.specDepth == 0 {
+			x.panicPoint(st, ins.Pos(), "call:"+fn.Name(), nil)
+		}
+		for n, mi := range x.fnMods(fn, map[*ssa.Function]bool{}) {
+			x.compSort[n] = mi.sort
+			st.heap[n] = x.w.Fresh(n, mi.sort)
+			x.noteBase(st.heap[n], st.alloc)
+		}
 		x.bumpAlloc(st)
 		return x.havocResult(st, "call_"+fn.Name(), fn.Signature.Results())
 	}
@@ -983,8 +994,13 @@ func (x *Exec) frameCheck(pre, post *State, ins ssa.Instruction) {
 	}
 }
 
+// sameText: the two panics clauses name the same predicate (their arguments
+// are the callee's resp. the caller's name for the same object: checked by
+// the callee's precondition at the call).
 func sameText(a, b string) bool {
-	return strings.Join(strings.Fields(a), "") == strings.Join(strings.Fields(b), "")
+	pa, _, _ := strings.Cut(strings.TrimSpace(a), "(")
+	pb, _, _ := strings.Cut(strings.TrimSpace(b), "(")
+	return strings.TrimSpace(pa) == strings.TrimSpace(pb)
 }
 
 // setupPanicMode: `panics pred(a, b)` names a spec function of the package
@@ -1004,6 +1020,10 @@ func (x *Exec) setupPanicMode(ct *Contract, fn *ssa.Function, args []Value) {
 	for _, a := range strings.Split(txt[i+1:len(txt)-1], ",") {
 		a = strings.TrimSpace(a)
 		found := false
+		if a == "$recv" && len(args) > 0 {
+			pargs = append(pargs, args[0])
+			continue
+		}
 		for k, p := range ct.Params {
 			if p == a && k < len(args) {
 				pargs = append(pargs, args[k])
